@@ -439,6 +439,7 @@ class Env:
         for s in specs:
             parent = self.ns.get(s.get('import_from')) if s.get('imported') else None
             self.ns[s['uid']] = U.Namespace(s, parent)
+        self.specs = {s['uid']: s for s in specs}
         self.fns = {}
         self.shared = {}
         self.mount = mount
@@ -515,6 +516,13 @@ def exec_op(env, op, th=None):
     if kind == 'drop':
         # the caller lets go of a function (its Loader/Dumper class becomes garbage)
         env.fns.pop(op['slot'], None)
+        return {'status': 'ok', 'value': ['none'], 'trace': []}
+    if kind == 'rebuild':
+        # the application defines its classes anew (a request handler with local classes,
+        # a module reloaded): new class objects, new typing aliases; the old ones die
+        sp = env.specs[op['spec']]
+        parent = env.ns.get(sp.get('import_from')) if sp.get('imported') else None
+        env.ns[op['spec']] = U.Namespace(sp, parent)
         return {'status': 'ok', 'value': ['none'], 'trace': []}
     if kind == 'mk':
         ns = env.ns[op['spec']]
@@ -823,6 +831,8 @@ def _run_plan(plan, pristine_fp, yatiml_dir, yaml_dir, mount, sched, profile=Fal
 def reference_request(plan, fnops, rec):
     """Self-contained, slot-independent description of one recorded operation."""
     op = dict(rec['op'])
+    if op['op'] in ('gc', 'drop', 'rebuild'):
+        return None
     specs_by_uid = {s['uid']: s for s in plan['specs']}
     need = []
     mk = None
